@@ -472,6 +472,7 @@ pub struct Core<'a> {
     pub monitor_dead: bool,
     pub call_idx: usize,
     pub last_checked: u64,
+    pub capacity_hit: bool,
 }
 
 impl<'a> Core<'a> {
@@ -501,6 +502,14 @@ impl<'a> Core<'a> {
             monitor_dead: false,
             call_idx: 0,
             last_checked: 0,
+            capacity_hit: false,
+        }
+    }
+
+    /// record a violation after which execution continues (at most a few per class)
+    pub fn soft(&mut self, v: Viol) {
+        if self.out.soft.iter().filter(|x| x.class == v.class).count() < 2 {
+            self.out.soft.push(v);
         }
     }
 
@@ -534,7 +543,7 @@ impl<'a> Core<'a> {
         let blocks = (self.mem.heap_hwm - self.mem.heap_base) / BLOCK;
         let stride = 1 + blocks / 384;
         let due = self.out.markers % stride == 0 || want_snap;
-        if self.opts.check_heap && !self.monitor_dead && due {
+        if self.opts.check_heap && due {
             let consecutive = self.last_checked + 1 == self.out.markers;
             self.last_checked = self.out.markers;
             let roots: Vec<(usize, V)> = mk
@@ -545,19 +554,34 @@ impl<'a> Core<'a> {
                 .map(|(pos, _)| (pos, temps[pos].0))
                 .collect();
             self.out.heap_checks += 1;
-            match crate::monitor::check_heap(&self.mem, heap_reg, free_reg, &roots) {
-                Ok(sh) => {
-                    if let Err(v) = self.fp.at_marker(&self.mem, &sh, consecutive) {
-                        self.out.soft.push(Viol::new(v.class, format!("{} (statement boundary #{})", v.msg, self.out.markers)));
+            let mut fp_shape = None;
+            if !self.monitor_dead {
+                match crate::monitor::check_heap(&self.mem, heap_reg, free_reg, &roots) {
+                    Ok(sh) => {
+                        self.log.add(sh.frontier ^ (sh.r as u64) << 48);
+                        fp_shape = Some(sh.clone());
+                        shape = Some(sh);
                     }
-                    self.log.add(sh.frontier ^ (sh.r as u64) << 48);
-                    shape = Some(sh);
+                    Err(v) => {
+                        if v.class != Class::Capacity {
+                            let m = self.out.markers;
+                            self.soft(Viol::new(v.class, format!("{} (statement boundary #{})", v.msg, m)));
+                        } else {
+                            self.capacity_hit = true;
+                        }
+                        self.monitor_dead = true;
+                    }
                 }
-                Err(v) => {
-                    if v.class != Class::Capacity {
-                        self.out.soft.push(Viol::new(v.class, format!("{} (statement boundary #{})", v.msg, self.out.markers)));
-                    }
-                    self.monitor_dead = true;
+            }
+            if fp_shape.is_none() && !self.capacity_hit {
+                // the strict invariant is already broken: the footprint monitor keeps running on a
+                // best-effort view of the heap
+                fp_shape = crate::monitor::loose_shape(&self.mem, heap_reg, free_reg, &roots);
+            }
+            if let Some(sh) = fp_shape {
+                if let Err(v) = self.fp.at_marker(&self.mem, &sh, consecutive) {
+                    let m = self.out.markers;
+                    self.soft(Viol::new(v.class, format!("{} (statement boundary #{})", v.msg, m)));
                 }
             }
         }
